@@ -44,7 +44,7 @@ impl TrueStrengthIndex {
 		// C08: the constant state for the candle's source price (tsi_ind_const_step)
 		r is Ok ==> r->Ok_0.const_state(src_val(candle, self.source)),
 //@replace Ok(Self::Instance { ==> Ok(TrueStrengthIndexInstance {
-//@replace TSI::new(cfg.period2, cfg.period1, &src)? ==> TSI::new3(cfg.period2, cfg.period1, &src)?
+//@replace TSI::new( ==> TSI::new3(
 //@end
 }
 pub open spec fn tsi_ind_step(pre: &TrueStrengthIndexInstance, src: ValueType, post: &TrueStrengthIndexInstance, tsi: ValueType, sig: ValueType, s1: Action, s2: Action, s3: Action, lo: Action, hi: Action, nz: ValueType, zero: ValueType) -> bool {
@@ -106,7 +106,7 @@ impl<M: MovingAverageConstructor> SMIErgodicIndicator<M> {
 		// C08: for an averaging kind that cannot overshoot, the constant state for the candle's source price (smi_const_step)
 		r is Ok && self.signal.convex_kind() ==> r->Ok_0.const_state(src_val(candle, self.source)),
 //@replace Ok(Self::Instance { ==> Ok(SMIErgodicIndicatorInstance {
-//@replace TSI::new(cfg.period2, cfg.period1, &src)? ==> TSI::new3(cfg.period2, cfg.period1, &src)?
+//@replace TSI::new( ==> TSI::new3(
 //@end
 }
 pub open spec fn smi_step<M: MovingAverageConstructor>(pre: &SMIErgodicIndicatorInstance<M>, src: ValueType, post: &SMIErgodicIndicatorInstance<M>, tsi: ValueType, sig: ValueType, osc: real, s1: Action, c: Action) -> bool {
